@@ -131,6 +131,29 @@ pub fn salts(ctx: &Ctx, rep: &mut Report) {
         rep.inconclusive("key generation did not return within 180 s (canary); reported as inconclusive, never as a violation".into());
         return;
     }
+    // one LONG-LIVED thread that signs for the whole duration of the leg and beyond (a signing
+    // daemon): per-thread generator state with an output budget, a reseed interval or a counter
+    // that runs out only after tens of thousands of signatures shows up here and nowhere else
+    let long_n = ctx.sz(42_000, 400_000);
+    let long_seed = ctx.seed;
+    let long = std::thread::spawn(move || {
+        vh::set_sign_rng(None);
+        let (keys, _) = pool::keys::<F1024>(long_seed, "c08-long", 1);
+        let mut out: Vec<SaltRec> = Vec::with_capacity(long_n);
+        if let Some(k) = keys.first() {
+            for i in 0..long_n {
+                let msg = (i as u64).to_le_bytes();
+                match monitored(|| F1024::sign(&msg, &k.sk)) {
+                    Ok(sig) => {
+                        let b = F1024::sig_to_bytes(&sig);
+                        out.push(SaltRec { salt: b[1..41].to_vec(), sig_hash: crate::util::hash64(&b), ctx: format!("long-lived thread, call {}", i) });
+                    }
+                    Err(_) => break,
+                }
+            }
+        }
+        out
+    });
     let n512 = ctx.sz(48_000, 1_000_000);
     let n1024 = ctx.sz(16_000, 200_000);
     let mut all = collect::<F512>(ctx, n512, rep);
@@ -185,8 +208,18 @@ pub fn salts(ctx: &Ctx, rep: &mut Report) {
         check_history("short-lived threads (one or two signatures each)", &c, rep);
         rep.nontrivial_s("history|thread-churn");
         all.extend(c);
-        check_history("everything together", &all, rep);
     }
+    match long.join() {
+        Ok(l) => {
+            rep.count("long_lived_thread_signatures", l.len() as u64);
+            check_history("one long-lived thread (Falcon-1024)", &l, rep);
+            rep.nontrivial_s("history|long-lived");
+            all.extend(l);
+        }
+        Err(_) => rep.inconclusive("the long-lived signing thread died".into()),
+    }
+    check_history("everything together", &all, rep);
+    rep.require("long_lived_thread_signatures", long_n as u64);
     // the retry paths of sign (compression failure forced by the failpoint, real randomness):
     // a salt that is re-drawn, cleared or reused when signing restarts shows up here
     let (keys3, _) = pool::keys::<F512>(ctx.seed, "c08", 2);
